@@ -333,7 +333,7 @@ func runForward(c fwdCase) (viol string) {
 		}
 	}
 	// everything was started before the sentinel; allow the stragglers to land
-	grace := time.Now().Add(2 * time.Second)
+	grace := time.Now().Add(15 * time.Second) // returns as soon as everything has arrived; only a lost receipt waits this long
 	for time.Now().Before(grace) {
 		if n, _ := count(); n >= len(want) && len(ch) == 0 {
 			break
